@@ -468,9 +468,9 @@ func errorClass(msg string) string {
 // signature  mode | shape of the minimal expression | kind of difference.
 func (r *setRun) report(full, n *Node, mode string, p EvalParams, d *Diff, want, got *Result) {
 	min := n
-	for depth := 0; depth < 8; depth++ {
+	for depth := 0; depth < 16; depth++ {
 		var next *Node
-		for _, k := range min.Kids() {
+		for _, k := range append(min.Kids(), min.Simpler()...) {
 			w2, g2, d2 := r.evalMode(k, mode, p)
 			if d2 != nil {
 				next, want, got, d = k, w2, g2, d2
